@@ -25,7 +25,7 @@ STATUS = [
  ('C15', 'bp round trips (any shape), axis convention, render/parse tables (regenerated), pack/unpack for all dtypes, popcount', 'T (LogicTables) + C (numpy primitives) + oracle', 'numpy primitive semantics (assumptions validated by correspondence)'),
  ('C16', 'callback trace = op outputs in order; identity; upstream untouched; override = driven signal; callback dispatch copies = plain; **model_callback_correct** (the compared memory-level model with callback refines the op-list callback semantics for every build() result), model_override / identity / trace, sim_case8_cb_correct', 'T + C (call sequence + results) + cut-circuit oracle over option combinations', '-'),
  ('C17', 'Kahn: nodup, sources first, drivers first, complete (unconnected pins), levels, line order, reverse = mirror; **fan-in**: fanin_order, nodup, sound, complete_comb, exact_comb, unfold / comb_node / seq_node; prefix lookup lists integer keys in numeric order; wf_netlist_b/acyclic_b/acyclic_rev_b sound', 'C (exact sequences; _locs results) + graph/ground-truth oracles', 'regular-expression generality of _locs'),
- ('C18', 'scan load/unload position with inversion parity, pi/po groups, interface = s_nodes, loc transition, per-pattern columns; refutations for the pinned code', 'C (patterns, maps, tests, responses, tests_loc) + ground truth', 'STIL grammar; the logic simulation inside tests_loc is an input of the model'),
+ ('C18', '**text level**: exact accepted language (text_language, converse included), ignored blocks skipped iff balanced, layout / ignored statements irrelevant, parse/print round trip, chains / groups / calls as written; scan load/unload position with inversion parity, pi/po groups, interface = s_nodes, loc transition, per-pattern columns -- restated from TEXT; refutations for the pinned code', 'C (stil.parse vs parse_stil on generated / mutated / malformed / probe texts; patterns, maps, tests, responses, tests_loc) + ground truth', 'lark itself; the logic simulation inside tests_loc is an input of the model'),
  ('C19', 'pins once, names unique/expand, datasheet function of every family cell on all rows (regenerated libraries); **text_matches_translation** (Coq transcription of TechLib.__init__ on the five library strings = translated cell lists), expand_names = itertools product in order, exact distinctness condition (+ collision witness)', 'T (library strings emitted verbatim; TechLibs) + exhaustive C against TechLib.cells + TechLib(text) on generated library texts', 'family spec is trusted'),
  ('C20', 'wildcard resolution (structural + nearest-value iff), via location, via arrays (members iff, count, order, NoDup), per-layer/per-type listings, ROUTED accumulation, ROW arithmetic', 'C (listings, points, vias) + ground truth of generated DEF texts', 'DEF grammar and transformer callbacks'),
 ]
